@@ -29,10 +29,10 @@ ASSUMPTIONS = ["reference interpreter vf/ref.py evaluates the operands", "any ex
 FLOOR = {
     "in:embedding": 1, "in:categorical-probs": 1, "in:categorical-logits": 1, "in:gaussian": 1, "in:gaussian-lp": 1, "in:polynomial": 1,
     "sum:arity>1-both": 1, "prod:kronecker": 1, "square": 1, "chain3": 1, "evidence-operands": 1, "O1*O2>1": 1,
-    "outcome:returned": 20, "outcome:refused": 1, "values_compared": 500,
+    "twin": 1, "outcome:returned": 20, "outcome:refused": 1, "values_compared": 500,
 }
 
-KINDS = ["pair", "pair", "pair-onekind", "square", "chain3", "evidence", "unaligned", "incompatible", "pair-sparse", "pair-mixing"]
+KINDS = ["pair", "pair", "pair-onekind", "square", "chain3", "evidence", "unaligned", "incompatible", "pair-sparse", "pair-mixing", "twin"]
 
 
 def plan(tier, seed):
@@ -86,6 +86,9 @@ def build(case):
         c1, meta = gen.gen_circuit(rng, _cfg(rng, ("cat",), nvars=rng.randint(3, 5), structured=False, multi_part_prob=0.5))
         c2, _ = gen.gen_circuit(rng, _cfg(rng, ("cat",), nvars=len(meta["domains"]), structured=rng.random() < 0.5))
         ops = [c1, c2]
+    elif kind == "twin":
+        ops, meta = gen.gen_twin_pair(rng, cfg1, n=rng.choice([2, 2, 3]))
+        feats.add("twin")
     else:
         ops, meta = gen.gen_compatible_pair(rng, cfg1, cfg2)
     domains = dict(meta["domains"])
